@@ -4303,7 +4303,10 @@ class NetCDFWrite(IOWrite):
         force_global = {
             attr: v[0]
             for attr, v in force_global.items()
-            if len(v) == len(fields) and len(set(v)) == 1
+            if len(v) == len(fields)
+            and all(
+                self.implementation.equal_properties(v[0], x) for x in v[1:]
+            )
         }
 
         # File descriptors supercede "forced" global attributes
